@@ -102,6 +102,18 @@ def r08_2_single_source(chk):
                     and call_arg(c, kw="mapping") == A(frp, "channel_name_mapping"), "R08.2",
                     f"wrapper-gets-frame-mappings:{(call_name(c) or pp(c[1]))[-30:]}",
                     "a data wrapper is built without the frame's channel / cast-dtype mappings", mk.where)
+    # the code is (re)derived from the data only while no cast dtype is known: a known one has already sized the chunk
+    # field for this write, so changing it now would make the descriptor disagree with the bytes
+    sdr = ix.get_method("ChannelItem", "set_dimension_and_repr_code_from_data")
+    rs = chk.terms.inline(sdr, 3, stop=lambda g: g is scd or g.kind == "staticmethod" or (
+        g.cls is not None and g.cls.name in ("ReprCodeConverter", "ReprCodeAttribute")))
+    resets = [e for e in rs.effects if e.kind == "call" and is_call(e.value, scd.name)]
+    none_known = [("cmp", "is", A(SELF, "cast_dtype"), NONE), ("cmp", "is", A(SELF, "_cast_dtype"), NONE)]
+    chk.require(bool(resets) and all(any(l in none_known for l in e.pc) for e in resets), "R08.2",
+                "code-from-data-only-without-cast-dtype",
+                f"the cast dtype / representation code is re-derived from the data under "
+                f"{[[pp(l)[:50] for l in e.pc] for e in resets][:2]}: not only when no cast dtype is known, although the "
+                f"known one has already decided the dtype of the chunk field", sdr.where)
     fr = ix.get_class("FrameItem")
     p = fr.lookup("known_channel_dtypes_mapping")
     ps = chk.summary(p)
